@@ -175,6 +175,13 @@ def run_variant(spec, var, budget=20000):
             seen_trace[:] = now
             o["trace_new"] = [(r.datetime, r.start_state, r.signal, r.end_state) for r in new]
             o["trace_len"] = len(now)
+            if var.get("trace_each") and queued:
+                # the user reads trace() after every step, not only at the end
+                try:
+                    o["trace_text"] = h.trace()
+                except Exception as e:  # noqa
+                    o["trace_text"] = "raised %s: %s" % (type(e).__name__, e)
+                o["trace_recs"] = [(r.datetime, r.start_state, r.signal, r.end_state) for r in now]
         o["live_spy"] = list(live_spy)
         o["live_trace"] = list(live_trace)
         del live_spy[:]
@@ -187,7 +194,17 @@ def run_variant(spec, var, budget=20000):
         h.start_at(t.S[spec["start"]])
         out["steps"].append(observe("start", -1))
         drive = var.get("drive", "dispatch")
-        for name in spec["events"]:
+        if queued and drive == "circuit":
+            # the whole batch is posted first and run by one complete_circuit() call
+            Clock.next_step()
+            prev = charts.config_of(h)
+            for name in spec["events"]:
+                h.post_fifo(ev(name))
+            del t.raw[:]
+            h.complete_circuit()
+            out["steps"].append(observe("circuit", prev))
+            out["steps"][-1]["queue_left"] = len(h.queue)
+        for name in (spec["events"] if not (queued and drive == "circuit") else ()):
             Clock.next_step()
             prev = charts.config_of(h)
             try:
@@ -247,6 +264,16 @@ def check_behaviour(spec, var, run, ref_steps):
     tag = "host=%s/family=%s" % (var["host"], var["family"])
     if run["exception"]:
         return [("exception/%s" % tag, "raised %s %s" % (run["exception"], run.get("where", "")))]
+    if var.get("drive") == "circuit" and var["host"].startswith("queued"):
+        # one complete_circuit() call ran the whole batch: its log is the concatenation of the reference steps
+        want = [x for r in ref_steps[1:] for x in r["log"]]
+        o = run["steps"][1] if len(run["steps"]) > 1 else {"log": None, "state": None, "queue_left": None}
+        if run["steps"][0]["log"] != ref_steps[0]["log"]:
+            out.append(("actions/%s" % tag, "start: actions %r, uninstrumented reference %r" % (run["steps"][0]["log"], ref_steps[0]["log"])))
+        elif o["log"] != want or o["state"] != ref_steps[-1]["state"] or o.get("queue_left"):
+            out.append(("circuit/%s" % tag, "complete_circuit() over the posted batch: actions %r, rests in %r, %r events left; the uninstrumented "
+                        "reference step by step: %r, rests in %r" % (o["log"], o["state"], o.get("queue_left"), want, ref_steps[-1]["state"])))
+        return out
     for k, (o, r) in enumerate(zip(run["steps"], ref_steps)):
         if o["log"] != r["log"]:
             out.append(("actions/%s" % tag, "step %d: actions %r, uninstrumented reference %r" % (k, o["log"], r["log"])))
@@ -344,6 +371,12 @@ def check_trace(spec, var, run, rings=None):
         allrecs += want
         if o.get("cleared_after"):
             allrecs = []
+        if "trace_recs" in o:
+            want_text = "\n" + "".join(fmt_trace(r, run.get("name")) for r in o["trace_recs"])
+            if o["trace_text"] != want_text:
+                out.append(("trace/text-after-step", "step %d: trace() returned %r, the records held at that moment render as %r" % (
+                    k, o["trace_text"], want_text)))
+                return out
     size = rings[1] if rings else 500
     gotfull = [(a, s, b) for (_, a, s, b) in run.get("trace_full", [])]
     if gotfull != allrecs[-size:]:
